@@ -547,6 +547,35 @@ func c14Generate(r *rng, fields []c14Field, n int, dir string) []*c14Case {
 		c.Tokens = append(c.Tokens, "c_KC_2=1.1", f.Name+"="+text, "CropFile=PARAM.WW", "c_TSUM_1=200")
 		cases = append(cases, c)
 	}
+	// ----- pairs of switches on one line, each line evaluated several times: commandlineOverride ranges over a Go map, whose
+	// order differs from range to range; the repetitions of a line (one group) must all give the same configuration
+	{
+		var sw []c14Field
+		for _, f := range fields {
+			if f.Kind == "bool" {
+				sw = append(sw, f)
+			}
+		}
+		for i := range sw {
+			for j := range sw {
+				if i == j {
+					continue
+				}
+				// first switch off, second on (both (i,j) and (j,i) occur)
+				toks := []string{sw[i].Name + "=0", sw[j].Name + "=1"}
+				for rep := 0; rep < 5; rep++ {
+					c := &c14Case{Group: group, ID: id, Kind: "switchpair", PF: map[string]string{}, typed: map[string]interface{}{}}
+					id++
+					c.Tokens = append([]string(nil), toks...)
+					if rep%2 == 1 {
+						c.Tokens[0], c.Tokens[1] = c.Tokens[1], c.Tokens[0]
+					}
+					cases = append(cases, c)
+				}
+				group++
+			}
+		}
+	}
 	// ----- sequences on a project WITHOUT config.yml: earlier lines (real Run) carry overrides, this line omits some
 	nseq := 6 + n/25
 	for k := 0; k < nseq; k++ {
